@@ -3,6 +3,7 @@ CONSTANTS
   MaxOps = 3
   Deviations <- NoDev
   JunkBytes <- MCJunk
+  RegistryOps = TRUE
 CHECK_DEADLOCK FALSE
 VIEW ViewNoHist
 INVARIANT FramesRight
